@@ -92,6 +92,12 @@ def run_case(ctx, case, count=True):
         except NotImplementedError:
             ctx.notes["refused_at_construction"] = ctx.notes.get("refused_at_construction", 0) + 1
             return None
+        except Exception as e:
+            # raising while the program is BUILT is not a statement about graphs / schedules / records
+            # (e.g. broadcasting a length-1 axis chunked (0, 1)); counted with an example, reported
+            ctx.notes["construction_raised"] = ctx.notes.get("construction_raised", 0) + 1
+            ctx.notes.setdefault("construction_raised_example", f"{type(e).__name__}: {str(e)[:100]} :: {[st['op'] for st in prog]}")
+            return None
         npenv = programs.run_np_ext(prog)
         pristine = {k: v.copy() for k, v in sources.items()}
         src_fp = {k: (graphs.fingerprint(v), v.flags.writeable) for k, v in sources.items()}
@@ -208,7 +214,7 @@ def run_case(ctx, case, count=True):
                     fails.append(("threads-differ", f"{r}: serial vs 4 threads (run {i}): {np.asarray(a).ravel()[:8].tolist()} vs {np.asarray(t).ravel()[:8].tolist()}"))
                 if count:
                     ctx.count()
-            if not close_to_numpy(a, npenv[r]):
+            if not any(st["op"] == "setitem_masked" for st in prog) and not close_to_numpy(a, npenv[r]):
                 # every schedule agrees on a value that differs from NumPy: a value defect (C01/C02), not
                 # schedule dependence and not an input mutation -> recorded in the evidence, reported, no C10 failure
                 ctx.notes["numpy_mismatch_with_all_orders_agreeing(C01)"] = ctx.notes.get("numpy_mismatch_with_all_orders_agreeing(C01)", 0) + 1
@@ -282,6 +288,22 @@ def targeted_programs(rng):
     gi = {"op": "getitem", "args": ["v2"], "index": [["s", 0, n - 1, None]], "out": "v3"}
     out.append(([src, one, gi, setit("v3", "v4"), cum("v3", "v5")], ["v4", "v5", "v3", "v2"]))
     out.append(([src, one, gi, ident("v3", "v6"), swv("v6", "v4")], ["v4", "v6", "v3"]))
+    # 4 a MaskedArray value assigned into plain blocks (the kernel views the block as masked before copying)
+    nd = rng.randint(2, n - 1)
+    msk = lambda a, o: {"op": "setitem_masked", "args": [a], "index": [["s", 0, nd, None]], "data": [rng.randint(-9, 9) for _ in range(nd * m)],
+                        "mask": [rng.random() < 0.4 for _ in range(nd * m)], "vshape": [nd, m], "out": o}
+    out.append(([src, msk("v1", "v4")], ["v4", "v1"]))
+    out.append(([src, one, msk("v2", "v4")], ["v4", "v2", "v1"]))
+    out.append(([src, one, split, msk("v3", "v4"), cum("v3", "v5")], ["v4", "v5", "v3"]))
+    # 5 ufunc(where=<array>, out=<dask array>): the out block owns its data (single-chunk source / persisted)
+    osrc = {"op": "src", "shape": shape, "chunks": [[n], [m]], "mul": 3, "off": 1, "mod": 1 << 20, "out": "v7"}
+    per = {"op": "persist", "args": ["v7"], "out": "v8"}
+    wo = lambda o_in, o: {"op": "ufunc_where_out", "args": ["v2", "v2", "v2", o_in], "mod": 2, "out": o}
+    out.append(([src, one, osrc, wo("v7", "v9")], ["v9", "v7"]))
+    out.append(([src, one, osrc, per, wo("v8", "v9")], ["v9", "v8"]))
+    out.append(([src, one, osrc, per, wo("v8", "v9"), cum("v8", "v10")], ["v10", "v9", "v8"]))
+    per1 = {"op": "persist", "args": ["v1"], "out": "v8"}
+    out.append(([src, per1, setit("v8", "v4"), cum("v8", "v5")], ["v4", "v5", "v8"]))
     return out
 
 
@@ -290,8 +312,9 @@ def run(ctx, replay=None):
     t_run = time.time()  # budgets are relative to the start of the search, not to the Lean build/audit
     ctx.rule = (
         "seeded random array programs (harness.programs incl. setitem, astype, identity map_blocks, split-rechunks whose "
-        "pieces are views, sliding-window reductions, cumsum) with 1-3 roots executed as ONE merged graph, x optimize-graph "
-        "on/off, plus 10 templates aimed at the in-place-prone kernels; each graph executed in FIFO, LIFO and N seeded random "
+        "pieces are views, sliding-window reductions, cumsum, MaskedArray setitem values, ufunc(where=, out=<dask array>), "
+        "persisted arrays, creation ops, concatenate=True blockwise) with 1-3 roots executed as ONE merged graph, x optimize-graph "
+        "on/off, plus 17 templates aimed at the in-place-prone kernels; each graph executed in FIFO, LIFO and N seeded random "
         "topological orders with dependency fingerprinting, then by dask's sync and 4-thread schedulers; an evaluation = one "
         "execution of one graph; distinct = (optimize flag, set of materialized layer classes)"
     )
@@ -324,7 +347,7 @@ def run(ctx, replay=None):
             if programs.in_known_class(prog) is not None:
                 continue
         else:
-            prog, npenv = programs.gen_clean_program(rng, rng.randint(2, 6), ext=True)
+            prog, npenv = programs.gen_clean_program2(rng, rng.randint(2, 6))
             names = [st["out"] for st in prog]
             roots = [names[-1]] + rng.sample(names[:-1], min(len(names) - 1, rng.randint(0, 2)))
         for opt in (True, False):
